@@ -104,6 +104,12 @@ def StrLen(maxoct=None):
     return TypeDesc("str", maxoct)
 
 
+def AsciiStrLen(maxoct=None):
+    """abstract string restricted to the strings whose character count equals their UTF-8 octet count (ASCII); the harness
+    should still state requires(len(s) == len(s.encode())) so that a native replay drops other strings"""
+    return TypeDesc("str", maxoct, True)
+
+
 def EnumOf(cls):
     return TypeDesc("enum", cls)
 
@@ -125,6 +131,9 @@ Text = TypeDesc("text", None)
 
 def TextLen(maxlen=None):
     return TypeDesc("text", maxlen)
+def TupleOf(*ts):
+    """fixed-arity tuple of independently quantified components (e.g. ListOf(TupleOf(Int, Int), 2))"""
+    return TypeDesc("tuple", *ts)
 
 
 def _reg(kind):
